@@ -9,7 +9,7 @@ vars == <<rounds, fs>>
 
 P(st, ttl, rtt, host, rnd, ck) ==
     [st |-> st, ttl |-> ttl, rtt |-> rtt, host |-> host, seq |-> 100 + 10 * rnd + ttl, sport |-> 5000, dport |-> 33000 + ttl,
-     kind |-> IF host = 9 THEN "er" ELSE "te", tos |-> host, eck |-> ck[1], ack |-> ck[2], round |-> rnd]
+     kind |-> IF host = 9 THEN "er" ELSE "te", tos |-> host, ext |-> (IF host = 2 THEN <<7>> ELSE <<>>), eck |-> ck[1], ack |-> ck[2], round |-> rnd]
 
 \* the option alphabet for one probe
 Mk(o, ttl, rnd) ==
